@@ -236,11 +236,13 @@ def replay_file(runner, path):
     return runner.run(text), text
 
 
-def confirm(variant, text, times):
+def confirm(variant, text, times, pid=None, known=None):
     r = Runner(variant); r.start(); fails = 0; last = None
     for _ in range(times):
         v = r.run(text)
         if is_failure(v):
+            if known is not None and match_known(known, pid, v.get("sig", ""), v.get("detail", "")) is not None:
+                continue
             fails += 1; last = v
     r.close()
     return fails, last
@@ -318,10 +320,10 @@ def run_check(modname, tier, seed, replay=None):
         if res["failed"] and res["fail_last"]:
             fl = res["fail_last"]; variant = job[5]
             times = 3
-            fails, last = confirm(variant, fl["text"], times)
+            fails, last = confirm(variant, fl["text"], times, pid, known)
             text = fl["text"]
             if fails == 0 and res["fail_first"]:
-                fails, last = confirm(variant, res["fail_first"]["text"], 10)
+                fails, last = confirm(variant, res["fail_first"]["text"], 10, pid, known)
                 text = res["fail_first"]["text"]
             if fails > 0:
                 os.makedirs(os.path.join(rdir, "found"), exist_ok=True)
